@@ -686,6 +686,15 @@ func (V *Verifier) checkExit(fc *FuncCtx, s *State, vals []Val, fi *FuncInfo, is
 			s.oblige("frame", n+"/other-arrays", fmt.Sprintf("(forall ((g_a Int)) (=> (and (<= 0 g_a) (< g_a g_alloc0) %s) (= (select %s g_a) (select %s g_a))))", sAnd(notIn...), cur, init), endPos)
 			// (2) inside a footprint array, cells outside the declared ranges are unchanged (index relative to the range start)
 			for k, a := range arrs {
+				whole := false
+				for _, t := range fp[n].targets {
+					if t.arr == a && t.kind == "maprow" {
+						whole = true
+					}
+				}
+				if whole {
+					continue // the whole row (map object) is in the footprint
+				}
 				var in []string
 				base := ""
 				for _, t := range fp[n].targets {
